@@ -98,7 +98,9 @@ def gen_map(rnd, colliding=True):
     if q < .25:
         return {}
     m = {}
-    prefixes = ["", None, "p", "q", "z", "svg", "x"] + (["ns0", "ns1", "ns2", "ns00"] if colliding else [])
+    # near-misses of the global prefixes xml / xmlns on both sides: the exclusion of serialize_root is exact
+    prefixes = ["", None, "p", "q", "z", "svg", "x", "xm", "xmlx", "xmldsig", "xmlsec", "xmlnsx"] \
+        + (["ns0", "ns1", "ns2", "ns00"] if colliding else [])
     if rnd.random() < .04:
         prefixes.append("xml")
     for _ in range(rnd.randint(1, 3)):
